@@ -68,6 +68,20 @@ fn collected_value(mfs: Vec<prometheus::proto::MetricFamily>, gauge: bool) -> f6
 }
 
 impl Cell {
+    /// A second handle to the same metric (what `clone()` gives a user).
+    pub fn clone_handle(&self) -> Cell {
+        match self {
+            Cell::C(c) => Cell::C(c.clone()),
+            Cell::IC(c) => Cell::IC(c.clone()),
+            Cell::CV(c) => Cell::CV(c.clone()),
+            Cell::ICV(c) => Cell::ICV(c.clone()),
+            Cell::G(c) => Cell::G(c.clone()),
+            Cell::IG(c) => Cell::IG(c.clone()),
+            Cell::GV(c) => Cell::GV(c.clone()),
+            Cell::IGV(c) => Cell::IGV(c.clone()),
+        }
+    }
+
     pub fn new(f: Flavour) -> Cell {
         let o = || Opts::new("c", "h");
         match f {
@@ -274,6 +288,8 @@ impl SeqSpec for CellSpec {
 }
 
 pub struct CellDriver {
+    /// every thread works through its own clone of the handle (instead of sharing one by reference)
+    pub cloned: bool,
     pub flavour: Flavour,
     /// operations applied sequentially in setup (non-initial start states)
     pub prelude: Vec<CellOp>,
@@ -283,7 +299,7 @@ pub struct CellDriver {
 impl Driver for CellDriver {
     type Shared = Cell;
     fn name(&self) -> String {
-        format!("{:?} pre{:?} {:?}", self.flavour, self.prelude, self.programs)
+        format!("{:?}{} pre{:?} {:?}", self.flavour, if self.cloned { " (cloned handles)" } else { "" }, self.prelude, self.programs)
     }
     fn threads(&self) -> usize {
         self.programs.len()
@@ -296,6 +312,13 @@ impl Driver for CellDriver {
         c
     }
     fn body(&self, t: usize, sh: &Cell, rec: &Recorder) {
+        let own;
+        let sh = if self.cloned {
+            own = sh.clone_handle();
+            &own
+        } else {
+            sh
+        };
         for op in &self.programs[t] {
             let (name, arg) = op_name(*op);
             rec.call(name, arg, || sh.apply(*op));
@@ -359,13 +382,14 @@ impl Driver for CellDriver {
         });
     }
     fn spec(&self) -> serde_json::Value {
-        serde_json::json!({"kind": "cell", "flavour": self.flavour, "prelude": self.prelude, "programs": self.programs})
+        serde_json::json!({"kind": "cell", "cloned": self.cloned, "flavour": self.flavour, "prelude": self.prelude, "programs": self.programs})
     }
 }
 
 impl CellDriver {
     pub fn from_spec(v: &serde_json::Value) -> Option<CellDriver> {
         Some(CellDriver {
+            cloned: v["cloned"].as_bool().unwrap_or(false),
             flavour: serde_json::from_value(v["flavour"].clone()).ok()?,
             prelude: serde_json::from_value(v["prelude"].clone()).ok()?,
             programs: serde_json::from_value(v["programs"].clone()).ok()?,
